@@ -29,7 +29,7 @@ PROBES = ["same_bytes_other_dtype", "same_bytes_other_length", "strided_argument
           "contour_evicted_recomputed", "child_scalar_read", "basin_proxy_read", "h5_scalar_read", "interleaved_functions", "layout_or_shape_variant_2d", "first_access_with_dtype",
           "refilter_same_count", "grandchild_read_after_refilter", "tuple_argument",
           "contour_of_invalid_mask_requested", "file_replaced_keeping_mtime",
-          "decoy_contour_list_with_same_first_mask", "decoy_dataset_with_same_first_feature"]
+          "decoy_contour_list_with_same_first_mask", "decoy_dataset_with_same_first_feature", "summary_read"]
 COMPONENTS = {"real": ["dclab.cached.Cache", "dclab.kde_methods (kde_histogram, kde_gauss, kde_multivariate)", "dclab.downsampling.downsample_grid (compiled)",
                        "dclab.util.hashfile / file_monitoring_lru_cache", "dclab.features.contour.LazyContourList",
                        "H5ScalarEvent / ChildScalar / BasinProxyFeature caches", "real files and os.stat on tmpfs"],
@@ -241,7 +241,7 @@ class World:
             # the root selects other events (equally many / any); the hierarchy is refreshed from the youngest
             return {"k": "ds_refilter", "mode": r.choice(["swap", "swap", "random"]), "dseed": r.randrange(1 << 20)}
         return {"k": "ds_read", "which": r.choice(["file", "child", "child", "grandchild", "grandchild", "basin"]), "feat": r.choice(["deform", "area_um", "bright_avg"]),
-                "how": r.choice(["all", "all", "idx", "slice", "asarray", "asarray_f32", "asarray_int"]), "i": r.randrange(1 << 16),
+                "how": r.choice(["all", "all", "idx", "slice", "asarray", "asarray_f32", "asarray_int", "summary"]), "i": r.randrange(1 << 16),
                 "fresh": r.random() < 0.3}
 
     # ---------------- execution ----------------
@@ -516,6 +516,17 @@ class World:
                     got, exp = obj[i], truth[i]
                 elif op["how"] == "slice":
                     got, exp = obj[i:i + 4], truth[i:i + 4]
+                elif op["how"] == "summary" and not all(hasattr(obj, a) for a in ("min", "max", "mean")):
+                    got, exp = obj[:], truth     # (mapped-basin proxies offer no summaries)
+                elif op["how"] == "summary":
+                    # the memoised minimum / maximum / mean of the feature object
+                    got = np.array([float(obj.min()), float(obj.max()), float(obj.mean())])
+                    exp = np.array([float(np.nanmin(truth)), float(np.nanmax(truth)), float(np.nanmean(truth))])
+                    ctx.probe("summary_read")
+                    if not np.allclose(got, exp, rtol=1e-12, atol=0):
+                        ctx.violation("C17.dataset.summary", f"{which} dataset: min/max/mean of {f} are {got.tolist()}, the selected events give {exp.tolist()}",
+                                      sig={"which": which})
+                    got = exp
                 elif op["how"] == "asarray":
                     got, exp = np.asarray(obj), truth
                 elif op["how"] == "asarray_f32":
